@@ -294,15 +294,17 @@ def trimNewlines (rs : List OutItem) : List OutItem :=
     newer ++ run.drop (k + 1) ++ rest
 
 /-- Trailing blanks and line breaks printed since `start` (an old length of the stream) go. -/
-def trimFunctionEnd (rs : List OutItem) (start : Nat) : List OutItem :=
+def trimFunctionEnd (rs : List OutItem) (start : Nat) (inText : Bool := false) : List OutItem :=
   let n := rs.length - start
+  -- (inside choice text a finished tag is taken out of the stream at once, so the blanks before
+  --  it are trailing blanks too; in ordinary content a tag ends the run of trailing blanks)
   let rec go : Nat → List OutItem → List OutItem
     | 0, l => l
     | _, [] => []
     | k + 1, .glue :: r => .glue :: go k r
     | k + 1, .nl :: r => go k r
     | k + 1, .text s :: r => if isBlank s then go k r else .text s :: r
-    | _, l => l
+    | k + 1, .tag t :: r => if inText then .tag t :: go k r else .tag t :: r
   go n rs
 
 /-- Collapse runs of blanks, drop blanks at both ends. -/
@@ -390,6 +392,8 @@ structure St where
   turn : Nat := 0
   out : List OutItem := []              -- newest first
   fnStarts : List (Option Nat) := []    -- running functions, innermost first: where their output starts
+  inText : Bool := false                -- evaluating the text of a choice
+  safeExitNl : Option Nat := none       -- line breaks printed when the flow last stopped at a DONE and went on by a fallback choice
   pending : List Pending := []          -- oldest first
   k : Kont := []
   temps : List (String × Val) := []
@@ -599,7 +603,7 @@ mutual
           let (v, st) ← runSub prog fuel st
           -- what the function printed loses its leading and trailing blanks and line breaks
           let start := match st.fnStarts with | some n :: _ => n | _ => 0
-          let st := { st with out := trimFunctionEnd st.out start, fnStarts := st.fnStarts.drop 1,
+          let st := { st with out := trimFunctionEnd st.out start st.inText, fnStarts := st.fnStarts.drop 1,
                               k := callerK, temps := callerTemps, flow := callerFlow }
           pure (v, st)
 
@@ -637,11 +641,13 @@ mutual
       let k0 := st.k
       let out0 := st.out
       let fn0 := st.fnStarts
-      let st := { st with k := [.inl parts], out := [], fnStarts := [] }
+      let inText0 := st.inText
+      let st := { st with k := [.inl parts], out := [], fnStarts := [], inText := true }
       match runSub prog fuel st with
       -- (an error inside the text: what was printed so far stays in the output)
-      | .fail kind st' => .fail kind { st' with out := st'.out ++ out0 }
+      | .fail kind st' => .fail kind { st' with out := st'.out ++ out0, inText := inText0 }
       | .ok (_, st) =>
+      let st := { st with inText := inText0 }
       let items := st.out.reverse
       let txt := items.foldl (fun acc it => match it with | .text s => acc ++ s | .nl => acc ++ "\n" | _ => acc) ""
       let tags := items.filterMap (fun it => match it with | .tag t => some (cleanText t) | _ => none)
@@ -834,6 +840,23 @@ def followFallback (st : St) : Option St :=
   | p :: _ => if st.pending.all (·.invisible) then some (st.choose p false) else none
   | [] => none
 
+def nlCount (rs : List OutItem) : Nat := (rs.filter (· == .nl)).length
+
+/-- The engine notes that the flow stopped at a DONE ("safe exit") and forgets it only when the
+    `continue` call in which that happened is over, i.e. with the line being produced.  If the flow
+    goes on from there by a fallback choice and then runs out of content while that note still
+    stands, the end of content is not reported (the reference engine behaves the same). -/
+def markSafeExit (why : Stop) (before after : St) : St :=
+  match why with
+  | .done => { after with safeExitNl := some (nlCount before.out) }
+  | _ => after
+
+/-- Does the note of a DONE still stand when the flow stops with this output? -/
+def St.safeExitStands (st : St) : Bool :=
+  match st.safeExitNl with
+  | some m => nlCount st.out ≤ m + 1
+  | none => false
+
 /-- Run until the flow stops. -/
 def runTurn (prog : Program) (fuel : Nat) (st : St) : TurnEnd × St :=
   match fuel with
@@ -851,11 +874,11 @@ def runTurn (prog : Program) (fuel : Nat) (st : St) : TurnEnd × St :=
         if sv.isThread then runTurn prog fuel { st' with k := sv.k, temps := sv.temps, flow := sv.flow, stack := more }
         else
           match followFallback st' with
-          | some st'' => runTurn prog fuel st''
+          | some st'' => runTurn prog fuel (markSafeExit why st' st'')
           | none => (.stopped why, st')
       | [] =>
         match followFallback st' with
-        | some st'' => runTurn prog fuel st''
+        | some st'' => runTurn prog fuel (markSafeExit why st' st'')
         | none => (.stopped why, st')
 
 def allVisitKeys (prog : Program) : List String :=
@@ -871,7 +894,8 @@ def play (prog : Program) (choices : List Nat) (fuel : Nat) : Transcript :=
     let lines := linesOf st1.out.reverse
     let visible := st1.pending.filter (!·.invisible)
     let offered := visible.map (fun p => ({ text := p.text, tags := p.tags } : Line))
-    let st2 := { st1 with out := [], fnStarts := [] }
+    let masked := st1.safeExitStands
+    let st2 := { st1 with out := [], fnStarts := [], safeExitNl := none }
     let report (status : Status) (errors : List String) (turn : Turn) : Transcript :=
       { turns := (turn :: turns).reverse, status := status, errors := errors, globals := st2.globals,
         visits := (allVisitKeys prog).map (fun k => (k, st2.visitCount k)) }
@@ -886,6 +910,7 @@ def play (prog : Program) (choices : List Nat) (fuel : Nat) : Transcript :=
         | .done => report .done [] turn
         | .outOfContent =>
           if !st2.pending.isEmpty then report .done [] turn
+          else if masked then report .done [] turn
           else if st2.stack.any (!·.isThread) then report .done ["tunnel_end"] turn
           else report .done ["ran_out"] turn
       else
